@@ -1,6 +1,6 @@
 @unit cw4stake
-@shim core.rs cw_utils.rs cw2.rs std_adapters.rs snapshot.rs cw_controllers.rs
-@properties C09 C10 C14
+@shim core.rs cw_utils.rs cw2.rs std_adapters.rs snapshot.rs cw_controllers.rs range.rs snapshot_range.rs
+@properties C09 C10 C14 C20
 
 // ===================================================================== data and state
 @struct packages/cw4/src/query.rs Member
@@ -552,3 +552,33 @@ pub proof fn lemma_waiting_total(c: Seq<Claim>, b: &BlockInfo)
         if !c.last().release_at.expired(b) { assert(waiting(c, b).drop_last() =~= waiting(c.drop_last(), b)); }
     }
 }
+
+// ===================================================================== C20: member listing
+@struct packages/cw4/src/query.rs MemberListResponse
+@const contracts/cw4-stake/src/contract.rs MAX_LIMIT
+@const contracts/cw4-stake/src/contract.rs DEFAULT_LIMIT
+@include inc/paging.vsi
+pub open spec fn str_cursor(c: Option<String>) -> Option<Seq<u8>> { match c { Some(s) => Some(utf8(s@)), None => None } }
+
+@fn contracts/cw4-stake/src/contract.rs list_members [closures: 2]
+@ensures C20.list_members_page
+    r is Ok ==> ({
+        let pg = page(listing(deps.storage.view(), "members"@, Seq::<u8>::empty(), false), str_cursor(start_after), limit);
+        r->Ok_0.members@.len() == pg.len() && forall|i: int| 0 <= i < pg.len() ==> utf8((#[trigger] r->Ok_0.members@[i]).addr@) == pg[i].0
+            && u64::de(pg[i].1) == Some(r->Ok_0.members@[i].weight)
+    })
+@eta "addr.as_ref().map" 1
+    __c: &Addr -> Bound<&Addr>
+@closure_types 1
+    item: StdResult<(Addr, u64)>
+@closure 1 C20.list_members_map
+    (res: StdResult<Member>)
+    ensures match item { Ok((a, w)) => res is Ok && res->Ok_0.addr@ == a@ && res->Ok_0.weight == w, Err(_) => res is Err }
+@closure_types 2
+    __p2_0: (Addr, u64)
+@closure 2 C20.list_members_entry
+    (res: Member)
+    ensures res.addr@ == __p2_0.0@ && res.weight == __p2_0.1
+@prefix
+    broadcast use string_conv;
+@end
